@@ -24,12 +24,18 @@ CONSTANTS Kinds,        \* subset of {"M","O","Q","E","CM","CO"}
           Tracked0,     \* channel tracked (pts 0) from the start
           MaxCrash,     \* crashes per behaviour
           Fixed,
+          TooLongAt,    \* the server answers differenceTooLong when that many common pts entries are pending (0 = never)
+          ChanTooLongAt,\* same for channelDifferenceTooLong
+          DiffLimit,    \* channelState.diffLim: threshold of handleTooLong
+          ChanTLPush,   \* updateChannelTooLong pushes enabled
           SimDepth
 
 \* kinds: M new message (pts), O other pts update (delete/read), Q qts update,
 \*        E new encrypted message (qts, carried in new_encrypted_messages),
-\*        CM new channel message, CO other channel pts update
-IsC(k) == k \in {"M", "O"}
+\*        CM new channel message, CO other channel pts update,
+\*        A a pts increment of the common sequence with nothing to deliver (messages.affected* result of an own request)
+IsC(k) == k \in {"M", "O", "A"}
+Deliverable(k) == k # "A"
 IsQ(k) == k \in {"Q", "E"}
 IsCh(k) == k \in {"CM", "CO"}
 
@@ -46,7 +52,7 @@ ChPosL(l, i) == Cardinality({j \in 1..i : IsCh(l[j])})
 CPos(i) == CPosL(log, i)
 QPos(i) == QPosL(log, i)
 ChPos(i) == ChPosL(log, i)
-SeqNo(i) == IF UseSeq THEN Cardinality({j \in 1..i : IsC(log[j]) \/ IsQ(log[j])}) ELSE 0
+SeqNo(i) == IF UseSeq THEN Cardinality({j \in 1..i : (IsC(log[j]) /\ log[j] # "A") \/ IsQ(log[j])}) ELSE 0
 
 \* ------------------------------------------------------------ sequence box
 CheckGap(local, remote, count) ==
@@ -126,8 +132,9 @@ SetStor(cc, k, v) == [cc EXCEPT !.stor[k] = v, !.evs = Append(@, [t |-> "s", k |
 
 HandlePts(cc, i, via) ==
   LET r == BoxHandle(cc.pts, [s |-> CPos(i) - 1, e |-> CPos(i), id |-> i])
-      c1 == [cc EXCEPT !.pts = r.b] IN
-  IF r.acc = <<>> THEN c1 ELSE SetStor(Dispatch(c1, Ids(r.acc), via), "pts", r.st)
+      c1 == [cc EXCEPT !.pts = r.b]
+      ids == SelectSeq(Ids(r.acc), LAMBDA x : Deliverable(log[x])) IN
+  IF r.acc = <<>> THEN c1 ELSE SetStor(IF ids = <<>> THEN c1 ELSE Dispatch(c1, ids, via), "pts", r.st)
 
 HandleQts(cc, i, via) ==
   LET r == BoxHandle(cc.qts, [s |-> QPos(i) - 1, e |-> QPos(i), id |-> i])
@@ -180,11 +187,21 @@ GetDifference(cc, fuel) ==
       rq == c0.qts.st
       P == SelectSeq([k \in 1..produced |-> k],
                      LAMBDA i : (IsC(log[i]) /\ CPos(i) > rp) \/ (IsQ(log[i]) /\ QPos(i) > rq))
+      Pc == SelectSeq(P, LAMBDA i : IsC(log[i]))
   IN
   IF P = <<>> THEN
        LET sq == SeqNo(produced)
            c1 == [c0 EXCEPT !.evs = Append(@, [t |-> "diff", k |-> "c", pts |-> rp, qts |-> rq, empty |-> TRUE])]
        IN [SetStor(c1, "seq", sq) EXCEPT !.seq.st = sq]
+  ELSE IF TooLongAt > 0 /\ Len(Pc) >= TooLongAt /\ fuel > 0 THEN
+       \* updates.differenceTooLong: the pts to restart from; the gap is reported through the callback.
+       \* ReportFirst: the repaired code reports before it persists (C03 at the crash point in between)
+       LET np == CPos(produced)
+           c1 == [c0 EXCEPT !.evs = Append(@, [t |-> "diff", k |-> "c", pts |-> np, qts |-> rq, empty |-> FALSE])]
+           rep(x) == [x EXCEPT !.evs = Append(@, [t |-> "tl", k |-> "c"])]
+           c2 == IF Fixed THEN [SetStor(rep(c1), "pts", np) EXCEPT !.pts.st = np]
+                 ELSE rep([SetStor(c1, "pts", np) EXCEPT !.pts.st = np])
+       IN GetDifference(c2, fuel - 1)
   ELSE
        LET S == IF SliceLim = 0 \/ Len(P) <= SliceLim THEN P ELSE SubSeq(P, 1, SliceLim)
            final == Len(S) = Len(P)
@@ -197,7 +214,7 @@ GetDifference(cc, fuel) ==
            c1 == [c0 EXCEPT !.evs = Append(@, [t |-> "diff", k |-> "c", pts |-> np, qts |-> nq, empty |-> FALSE])]
            ms == SelectSeq(msgs, LAMBDA i : log[i] = "M") \o SelectSeq(msgs, LAMBDA i : log[i] = "E")
            c2 == IF oth = <<>> \/ Fixed THEN c1 ELSE ApplyCombined(c1, oth, 0, "diff")
-           c3 == IF Fixed THEN (IF S = <<>> THEN c2 ELSE Dispatch(c2, ms \o SortIds(oth), "diff"))
+           c3 == IF Fixed THEN (IF ms \o oth = <<>> THEN c2 ELSE Dispatch(c2, ms \o SortIds(oth), "diff"))
                  ELSE IF msgs = <<>> THEN c2 ELSE Dispatch(c2, ms, "diff")
            c4 == [c3 EXCEPT !.stor.pts = np, !.stor.qts = nq, !.stor.seq = ns,
                             !.evs = Append(@, [t |-> "ss", pts |-> np, qts |-> nq, seq |-> ns]),
@@ -213,6 +230,13 @@ ChanDifference(cc, fuel) ==
   IF P = <<>> THEN
        LET c1 == [c0 EXCEPT !.evs = Append(@, [t |-> "diff", k |-> "ch", pts |-> rp, qts |-> 0, empty |-> TRUE])]
        IN SetStor(c1, "ch", rp)
+  ELSE IF ChanTooLongAt > 0 /\ Len(P) >= ChanTooLongAt THEN
+       \* updates.channelDifferenceTooLong: dialog pts to restart from, reported through the callback
+       LET np == ChPos(produced)
+           c1 == [c0 EXCEPT !.evs = Append(@, [t |-> "diff", k |-> "ch", pts |-> np, qts |-> 0, empty |-> FALSE])]
+           rep(x) == [x EXCEPT !.evs = Append(@, [t |-> "tl", k |-> "ch"])]
+       IN IF Fixed THEN [SetStor(rep(c1), "ch", np) EXCEPT !.ch.st = np]
+          ELSE rep([SetStor(c1, "ch", np) EXCEPT !.ch.st = np])
   ELSE
        LET S == IF ChanLim = 0 \/ Len(P) <= ChanLim THEN P ELSE SubSeq(P, 1, ChanLim)
            final == Len(S) = Len(P)
@@ -226,7 +250,16 @@ ChanDifference(cc, fuel) ==
            c4 == [SetStor(c3, "ch", np) EXCEPT !.ch.st = np]
        IN IF final \/ fuel = 0 THEN c4 ELSE ChanDifference(c4, fuel - 1)
 
+\* queue items: i > 0 a channel update (log index); -1 an updateChannelTooLong without pts; -(2 + p) one with pts p
+ChanTooLong(cc, item) ==
+  LET c1 == [cc EXCEPT !.chq = Tail(@)] IN
+  IF item = -1 THEN ChanDifference(c1, 8)
+  ELSE LET p == (0 - item) - 2 IN
+       IF DiffLimit > 0 /\ p - c1.ch.st > DiffLimit THEN [c1 EXCEPT !.evs = Append(@, [t |-> "tl", k |-> "ch"])]
+       ELSE ChanDifference(c1, 8)
+
 ChanStep(cc) ==
+  IF Head(cc.chq) < 0 THEN ChanTooLong(cc, Head(cc.chq)) ELSE
   LET i == Head(cc.chq)
       r == BoxHandle(cc.ch, [s |-> ChPos(i) - 1, e |-> ChPos(i), id |-> i])
       c1 == [cc EXCEPT !.ch = r.b, !.chq = Tail(@)] IN
@@ -268,7 +301,7 @@ SameSeq(i, j) == (IsC(log[i]) /\ IsC(log[j])) \/ (IsQ(log[i]) /\ IsQ(log[j])) \/
 \* C03: nothing the storage covers is undelivered
 PersistOK(o) ==
   \A i \in 1..Len(log) :
-     /\ (IsC(log[i]) /\ CPos(i) <= o.stor.pts) => (i \in o.he \/ o.tl.c)
+     /\ (IsC(log[i]) /\ Deliverable(log[i]) /\ CPos(i) <= o.stor.pts) => (i \in o.he \/ o.tl.c)
      /\ (IsQ(log[i]) /\ QPos(i) <= o.stor.qts) => (i \in o.he \/ o.tl.c)
      /\ (IsCh(log[i]) /\ o.stor.ch # -1 /\ ChPos(i) <= o.stor.ch /\ ChPos(i) > o.cb) => (i \in o.he \/ o.tl.ch)
 
@@ -277,7 +310,7 @@ ApplyEv(o, e) ==
       LET ids == {e.ids[k] : k \in 1..Len(e.ids)}
           dup == \E i \in ids : i \in o.hr
           ooo == e.via = "push" /\ \E i \in ids : \E j \in 1..(i - 1) :
-                    SameSeq(i, j) /\ j \notin (o.hr \cup ids) /\ ~Covered(o, j)
+                    SameSeq(i, j) /\ Deliverable(log[j]) /\ j \notin (o.hr \cup ids) /\ ~Covered(o, j)
       IN [o EXCEPT !.hr = @ \cup ids, !.he = @ \cup ids,
                    !.bad = IF dup THEN @ \cup {"dup"} ELSE IF ooo THEN @ \cup {"order"} ELSE @]
   ELSE IF e.t = "s" THEN
@@ -339,7 +372,7 @@ Produce ==
   /\ UNCHANGED <<log, c, handledRun, handledEver, tl, chBase, cover, npush, ncrash, bad>>
 
 Push(i, ws) ==
-  /\ npush < MaxPush /\ i <= produced
+  /\ npush < MaxPush /\ i <= produced /\ log[i] # "A"
   /\ ws => (UseSeq /\ ~IsCh(log[i]))
   /\ Len(c.chq) < 8 /\ Len(c.iq) < 8
   /\ npush' = npush + 1
@@ -348,10 +381,25 @@ Push(i, ws) ==
 
 \* two updates in one envelope (seq 0)
 Push2(i, j) ==
-  /\ npush < MaxPush /\ i < j /\ j <= produced
+  /\ npush < MaxPush /\ i < j /\ j <= produced /\ log[i] # "A" /\ log[j] # "A"
   /\ Len(c.chq) < 7 /\ Len(c.iq) < 8
   /\ npush' = npush + 1
   /\ Body(HandleUpdates(c, <<i, j>>, 0, "push"), A("push2", i, FALSE) @@ [j |-> j])
+  /\ UNCHANGED <<log, produced>>
+
+\* a pts increment reported by an own request (Manager.HandleAffected): only for entries of kind "A"
+PushAffected(i) ==
+  /\ npush < MaxPush /\ i <= produced /\ log[i] = "A"
+  /\ npush' = npush + 1
+  /\ Body(HandlePts(c, i, "push"), A("affected", i, FALSE))
+  /\ UNCHANGED <<log, produced>>
+
+\* updateChannelTooLong pushed for the tracked channel, with or without the server's current pts
+PushChanTooLong(wp) ==
+  /\ ChanTLPush /\ npush < MaxPush /\ Len(c.chq) < 8
+  /\ npush' = npush + 1
+  /\ Body(IF c.tracked THEN [c EXCEPT !.chq = Append(@, IF wp THEN 0 - (2 + ChPos(produced)) ELSE -1)] ELSE c,
+          A("chantl", ChPos(produced), wp))
   /\ UNCHANGED <<log, produced>>
 
 \* gap timeout / idle timeout / updatesTooLong: common difference
@@ -400,6 +448,8 @@ Init ==
   /\ act = A("init", 0, FALSE) /\ hist = <<>>
 
 Next ==
+  \/ \E i \in 1..MaxLog : PushAffected(i)
+  \/ (\E wp \in BOOLEAN : PushChanTooLong(wp))
   \/ Produce
   \/ \E i \in 1..MaxLog : \E ws \in BOOLEAN : Push(i, ws)
   \/ Recover \/ ChanSub \/ ChanRecover \/ ChanStepA \/ Internal \/ Quiesce
@@ -417,7 +467,7 @@ InOrder == "order" \notin bad
 \* C02: after a completed recovery nothing produced is missing
 NoLoss ==
   quiesced => \A i \in 1..produced :
-     \/ i \in handledEver
+     \/ i \in handledEver \/ ~Deliverable(log[i])
      \/ (IsCh(log[i]) /\ (~c.tracked \/ ChPos(i) <= chBase \/ tl.ch))
      \/ (~IsCh(log[i]) /\ tl.c)
 \* after a completed recovery the client is level with the server
@@ -426,7 +476,8 @@ Level ==
               /\ (c.tracked => c.ch.st >= ChPos(produced) \/ ChPos(produced) <= chBase)
               /\ c.iq = <<>> /\ c.chq = <<>>
 
-Beh == [log |-> log, tracked0 |-> Tracked0, slice |-> SliceLim, chanlim |-> ChanLim, useseq |-> UseSeq, hist |-> hist]
+Beh == [log |-> log, tracked0 |-> Tracked0, slice |-> SliceLim, chanlim |-> ChanLim, useseq |-> UseSeq,
+        toolong |-> TooLongAt, chantoolong |-> ChanTooLongAt, difflimit |-> DiffLimit, hist |-> hist]
 Dump == (Len(hist) = SimDepth) => PrintT(ToJson(Beh))
 \* exhaustive runs: one behaviour per distinct quiesced state (a state cover of the completed recoveries)
 DumpQ == quiesced => PrintT(ToJson(Beh))
